@@ -374,7 +374,7 @@ def run_c15(ctx):
                 "and the marker need (distinct argument words; at most one clause in an alternative or invalid wording) x every "
                 "order of writing them, up to MaxTake clauses exhaustively plus random larger commands; distinct = distinct "
                 "commands built")
-    maxtake = ctx.pick(3, 5)
+    maxtake = ctx.pick(3, 4)
     res = tlc.run("Clauses", cfg_text(maxtake), spec_dir=SPEC_DIR, tag="c15")
     ctx.add_model(res, "Clauses", {"MaxTake": maxtake, "Verbs": VERBS})
     if not res.ok:
@@ -387,10 +387,10 @@ def run_c15(ctx):
         raise tlc.TlcError("Clauses: %d finished commands printed but Close was taken %d times" % (len(rows), res.coverage["Close"][1]))
     nexh = len(rows)
     # larger commands: random subsets and orders of all clauses of a verb
-    nsim = ctx.pick(400, 6000)
+    nsim = ctx.pick(100, 2500)      # behaviours per simulation worker
     sim = tlc.run("Clauses", cfg_text(9), spec_dir=SPEC_DIR, simulate={"num": nsim, "depth": 12}, seed=ctx.seed, tag="c15sim",
-                  coverage=False)
-    ctx.add_model(sim, "Clauses-simulate", {"MaxTake": 9, "behaviours": nsim})
+                  coverage=False, workers=4)
+    ctx.add_model(sim, "Clauses-simulate", {"MaxTake": 9, "behaviours_per_worker": nsim, "workers": 4})
     if not sim.ok:
         ctx.diverge(Divergence("C15", "model", sim.error_name or sim.error, "Clauses", "specification property violated in the model (simulation)",
                                steps=[{"action": a, "state": s} for a, s in sim.trace]))
@@ -455,7 +455,7 @@ def run_c15(ctx):
     missing = [(v, c) for v in VERBS for c in CLAUSE_IDS[v] if (v, c) not in clause_seen]
     if missing and not ctx.divs:
         raise tlc.TlcError("C15 vacuous: no built command exercises clauses %r" % (missing,))
-    if nerr == 0:
+    if nerr == 0 and not ctx.divs:
         raise tlc.TlcError("C15 vacuous: no command with an invalid clause value was generated")
     ctx.add_validated(len(rows), {"command": " ".join(rows[len(rows) // 2]["cmd"]), "record": rows[len(rows) // 2]["rec"],
                                   "outcome": results[len(rows) // 2]["outcome"]})
